@@ -75,6 +75,7 @@ func (dc *dataChunk) AppendRecordGC(wrec *WriteRecord) (offset uint32, err error
 		logger.Fatalf("write data fail, stop! err: %v", err)
 		return 0, err
 	}
+	verifPoint("gc.appended")
 	return
 }
 
@@ -108,6 +109,7 @@ func (dc *dataChunk) flush(w *DataStreamWriter, gc bool) (flushed uint32, err er
 		logger.Fatalf("write data fail, stop! err: %v", err)
 		return 0, err
 	}
+	verifPoint("data.flushed")
 
 	dc.Lock()
 	tofree := dc.wbuf[:n]
@@ -207,6 +209,7 @@ func (dc *dataChunk) endGCWriting() (err error) {
 	}
 	if dc.rewriting && dc.writingHead < dc.size {
 		dc.Truncate(dc.writingHead)
+		verifPoint("gc.truncated")
 		dc.size = dc.writingHead
 	}
 	dc.rewriting = false
